@@ -69,7 +69,7 @@ theorem kindOf_idem (s : Stream) (hk : s.kind = none) : kindOf (kindOf s).2 = ki
   by_cases he : atEnd s = true
   · rw [kindOf_eol s hk he]
     exact kindOf_eol _ rfl he
-  · have he' : atEnd ({ rest := s.rest, stack := s.stack, kind := none, size := s.size, byteval := s.byteval, kinderr := none } : Stream) = false := by
+  · have he' : atEnd ({ rest := s.rest, stack := s.stack, kind := none, size := s.size, byteval := s.byteval, kinderr := none, unlimited := s.unlimited, phantom := s.phantom, alloc := s.alloc } : Stream) = false := by
       have : atEnd s = false := by simpa using he
       exact this
     have hfresh : ∃ k sz e s1, kindOf s = ((k, sz, e), s1) ∧ s1.kind = some k ∧ s1.size = sz ∧ s1.kinderr = e := by
